@@ -1,9 +1,9 @@
 SPECIFICATION Spec
 CONSTANTS
-  N = 4
-  RD = 2
-  CAP = 0
-  MaxOps = 5
+  N = 3
+  RD = 1
+  CAP = 2
+  MaxOps = 4
   FaultAt = 0
   KeepStaleOnFail = FALSE
   PanicOnMiss = FALSE
@@ -11,7 +11,7 @@ CONSTANTS
   KeepFoundBlock = FALSE
   SilentSeekHit = FALSE
   EarlyReturnOnForeign = FALSE
-  KeepOnGet = FALSE
-  Foreign = {}
+  KeepOnGet = TRUE
+  Foreign = {3}
 INVARIANTS NoPanic DataIdentity ErrorsTrue NoStaleMapping CacheBounded Capacities NoLeak
 CHECK_DEADLOCK TRUE
